@@ -3,9 +3,12 @@
    The binary searches are specified without assuming monotonicity: only the two boundary facts of the returned
    index are used (predicate true just before it, false at it). *)
 From VF Require Import C10.SortModel C10.ProofsPerm C10.ProofsInsertion C10.ProofsFrame C10.ProofsStableBase C10.ProofsRotate.
-From Coq Require Import ZifyNat.
-Ltac Zify.zify_post_hook ::= Z.to_euclidean_division_equations.
 Local Open Scope nat_scope.
+
+Lemma half_bounds x : 2 * (x / 2) <= x /\ x <= 2 * (x / 2) + 1.
+Proof.
+  pose proof (Nat.div_mod x 2 ltac:(lia)). pose proof (Nat.mod_upper_bound x 2 ltac:(lia)). lia.
+Qed.
 
 (* ---------- the binary search loop ---------- *)
 Section BS.
@@ -24,7 +27,7 @@ Lemma bs_loop_spec : forall k s i j, j - i < k -> lo0 <= i -> i <= j -> j <= hi0
 Proof.
   induction k as [|k IH]; intros s i j Hk Hi Hij Hj Hd Hlo Hhi; [lia|]. cbn [bs_loop].
   destruct (Nat.ltb_spec i j) as [Hlt|Hge].
-  - set (h := (i + j) / 2). assert (Hh : i <= h /\ h < j) by (unfold h; lia).
+  - set (h := (i + j) / 2). assert (Hh : i <= h /\ h < j) by (pose proof (half_bounds (i + j)); fold h in H; lia).
     destruct (p_ok s h Hd ltac:(lia) ltac:(lia)) as (s' & -> & Hd' & Hb').
     destruct (P h) eqn:EP.
     + destruct (IH s' (h + 1) j) as (R1 & R2 & R3 & R4 & R5 & R6); try lia; auto.
@@ -139,7 +142,7 @@ Proof.
     - apply (Rot_SP less le_trans d _ i m (m + 1)); try (fold d; lia); [exact R|exact YX]. }
   (* general case *)
   set (mid := (a + b) / 2). set (n := mid + m).
-  assert (Hmid : a < mid /\ mid < b /\ 2 * mid <= a + b /\ a + b <= 2 * mid + 1) by (unfold mid; lia).
+  assert (Hmid : a < mid /\ mid < b /\ 2 * mid <= a + b /\ a + b <= 2 * mid + 1) by (pose proof (half_bounds (a + b)) as Hhb; fold mid in Hhb; lia).
   clearbody mid. assert (En : n = mid + m) by reflexivity. clearbody n.
   set (sr := if mid <? m then (n - b, mid) else (a, m)).
   assert (Hsr : a <= fst sr /\ fst sr <= snd sr /\ snd sr <= m /\ snd sr <= mid /\
@@ -169,14 +172,14 @@ Proof.
   { intros x y Hx1 Hx2 Hy1 Hy2.
     assert (Hgt : start0 < start) by lia.
     specialize (Hlo Hgt). apply Bool.negb_true_iff in Hlo.
-    replace (n - 1 - (start - 1)) with end_ in Hlo by lia.
+    replace (n - 1 - (start - 1)) with end_ in Hlo by (clear - Ee Hgt He6 En; lia).
     apply (le_trans _ (getd d (start - 1))); [apply HsL; lia|].
     apply (le_trans _ (getd d end_)); [exact Hlo|apply HsR; lia]. }
   assert (K2 : forall x y, start <= x -> x < m -> m <= y -> y < end_ -> less (getd d y) (getd d x) = true).
   { intros x y Hx1 Hx2 Hy1 Hy2.
     assert (Hlt : start < r0) by lia.
     specialize (Hhi Hlt). apply Bool.negb_false_iff in Hhi.
-    replace (n - 1 - start) with (end_ - 1) in Hhi by lia.
+    replace (n - 1 - start) with (end_ - 1) in Hhi by (clear - Ee; lia).
     apply (lt_le _ (getd d start)); [|apply HsL; lia].
     apply (le_lt _ (getd d (end_ - 1))); [apply HsR; lia|exact Hhi]. }
   assert (K2w : forall x y, m <= x -> x < end_ -> start <= y -> y < m -> le (getd d x) (getd d y)).
